@@ -85,8 +85,15 @@
 (* actions that are due at the same tick - exactly the races of the code.      *)
 EXTENDS Integers, Sequences, FiniteSets, TLC
 
-CONSTANTS TD,       \* ticks per TerminateDuration (a multiple of 8)
+\* (the `@type` / `@typeAlias` comments are annotations for Apalache, see IndInv at the end of this module; TLC ignores them)
+\* @typeAlias: cls = {kind: Str, eof: Str, term: Str, out: Str, pre: Str, c2: Str};
+CmdClose_aliases == TRUE
+CONSTANTS
+          \* @type: Int;
+          TD,       \* ticks per TerminateDuration (a multiple of 8)
+          \* @type: Int;
           Slack,    \* a timer may fire up to Slack ticks late (0 or 1)
+          \* @type: Set($cls);
           Classes   \* set of child classes explored (CmdCloseMC!AllClasses or a subset)
 
 NoT == -1
@@ -95,32 +102,57 @@ Long == (3 * TD) \div 2
 MaxT == 3 * (TD + Slack) + 2
 Waits == {"wait1", "wait2", "wait3"}
 
-VARIABLES cls,       \* the child class (chosen in Init, never changes)
+VARIABLES
+          \* @type: $cls;
+          cls,       \* the child class (chosen in Init, never changes)
+          \* @type: Int;
           now,       \* clock
+          \* @type: Str;
           pc,        \* closer: idle wait1 term wait2 kill wait3 ret done
+          \* @type: Int;
           deadline,  \* the armed timer of the current wait
+          \* @type: Str;
           waiter,    \* the cmd.Wait goroutine: none waiting reaped done
+          \* @type: Str;
           res,       \* resChan: "empty" or the wait status
+          \* @type: Str;
           child,     \* run | zombie (exited, not waited for) | gone (waited for)
+          \* @type: Str;
           status,    \* wait status: none exit0 exit3 exit7 sigterm sigkill
+          \* @type: Str -> Int;
           due,       \* [eof, term, kill] -> tick at which the child exits for that cause (NoT: never)
-          closeAt, termAt, killAt, exitAt, retAt,   \* history: ticks (NoT = did not happen)
+          \* history: ticks (NoT = did not happen)
+          \* @type: Int;
+          closeAt,
+          \* @type: Int;
+          termAt,
+          \* @type: Int;
+          killAt,
+          \* @type: Int;
+          exitAt,
+          \* @type: Int;
+          retAt,
+          \* @type: Str;
           err,       \* what Close returned: none nil exit done unresponsive
+          \* @type: Str;
           err2,      \* what the second Close returned: none nil exit done stdin unresponsive
+          \* @type: Seq(Str);
           hist       \* what the child itself can record: eof, term, xeof, xterm
 vars == <<cls, now, pc, deadline, waiter, res, child, status, due, closeAt, termAt, killAt, exitAt, retAt, err, err2, hist>>
 
+\* @type: $cls => Str;
 EofEff(c) == IF c.kind = "raw" /\ c.out = "full" THEN "never" ELSE c.eof     \* D3
 Delay(r) == CASE r \in {"now", "default"} -> 0 [] r = "short" -> Short [] r = "attd" -> TD [] r = "long" -> Long
 PreStatus(p) == CASE p = "exit0" -> "exit0" [] p = "crash" -> "exit3" [] p = "sigkill" -> "sigkill" [] OTHER -> "none"
 ErrOf(st) == IF st = "exit0" THEN "nil" ELSE "exit"
+\* @type: $cls => Bool;
 SeesEof(c) == ~(c.kind = "raw" /\ c.out = "full")
 
 Init == /\ cls \in Classes
         /\ now = 0 /\ pc = "idle" /\ deadline = NoT /\ waiter = "none" /\ res = "empty"
         /\ child = IF cls.pre = "running" THEN "run" ELSE "zombie"
         /\ status = PreStatus(cls.pre)
-        /\ due = [eof |-> NoT, term |-> NoT, kill |-> NoT]
+        /\ due = [c \in {"eof", "term", "kill"} |-> NoT]   \* = [eof |-> NoT, term |-> NoT, kill |-> NoT], typed as a function (due[c])
         /\ closeAt = NoT /\ termAt = NoT /\ killAt = NoT /\ retAt = NoT
         /\ exitAt = IF cls.pre = "running" THEN NoT ELSE 0
         /\ err = "none" /\ err2 = "none" /\ hist = <<>>
@@ -243,7 +275,9 @@ PreExitedUnsignalled == cls.pre # "running" => (termAt = NoT /\ killAt = NoT /\ 
 PureClean == (cls.kind = "pure" /\ Returned) => (err = "nil" /\ status = "exit0" /\ termAt = NoT /\ retAt = closeAt)
 
 \* closed form for the classes without a boundary reaction (exactly one outcome each)
+\* @type: $cls => Bool;
 Boundary(c) == c.pre = "running" /\ (EofEff(c) = "attd" \/ (EofEff(c) = "never" /\ c.term = "attd"))
+\* @type: $cls => {err: Str, st: Str, hist: Seq(Str)};
 Exp(c) ==
   LET e == EofEff(c)
       E == IF SeesEof(c) THEN <<"eof">> ELSE <<>>
@@ -261,4 +295,86 @@ Determined == (pc = "done" /\ ~Boundary(cls)) =>
 
 \* liveness (P2): every Close returns, and a repeated Close too
 Terminates == <>(pc = "done")
+
+\* ---- inductive invariant (discharged by Apalache through CmdCloseInd.tla: Init => IndInv and IndInv /\ Next => IndInv',
+\* hence unbounded in the length of the behaviour AND in TD: CmdCloseInd!CInit leaves TD open).  It contains every
+\* invariant of CmdClose_mc*.cfg literally.
+Running == cls.pre = "running"
+IsTime(t) == t = NoT \/ (t >= 0 /\ t <= MaxT)      \* (inequalities, not a set: TD is not fixed)
+Causes == {"eof", "term", "kill"}
+\* the child's own record: eof?, then term?, then the exit it could see (which the wait status tells)
+HistShape ==
+  \E t \in {<<>>, <<"term">>} :
+     /\ hist = (IF pc # "idle" /\ Running /\ SeesEof(cls) THEN <<"eof">> ELSE <<>>) \o t
+               \o (IF Running /\ status = "exit0" THEN <<"xeof">> ELSE IF status = "exit7" THEN <<"xterm">> ELSE <<>>)
+     /\ (t # <<>> => termAt # NoT /\ cls.term # "default")
+     \* a child that is still running was running when SIGTERM was sent
+     /\ (child = "run" /\ termAt # NoT /\ cls.term # "default") => t # <<>>
+IndTypeOK ==
+  /\ TypeOK /\ cls \in Classes
+  /\ IsTime(deadline) /\ IsTime(termAt) /\ IsTime(killAt) /\ IsTime(exitAt) /\ IsTime(retAt)
+  /\ closeAt \in {NoT, 0}
+  /\ DOMAIN due = Causes /\ \A c \in Causes : IsTime(due[c])
+  /\ HistShape
+\* before Close: the initial state
+IndIdle ==
+  pc = "idle" =>
+     /\ now = 0 /\ deadline = NoT /\ waiter = "none" /\ res = "empty"
+     /\ child = (IF Running THEN "run" ELSE "zombie") /\ status = PreStatus(cls.pre)
+     /\ \A c \in Causes : due[c] = NoT
+     /\ closeAt = NoT /\ termAt = NoT /\ killAt = NoT /\ retAt = NoT
+     /\ exitAt = (IF Running THEN NoT ELSE 0)
+\* the child, the cmd.Wait goroutine and the result channel
+IndChild ==
+  /\ pc # "idle" => closeAt = 0 /\ waiter # "none"
+  /\ (child = "gone") = (waiter \in {"reaped", "done"})
+  /\ (res # "empty") = (waiter = "done")
+  /\ res # "empty" => res = status
+  /\ (child = "run") = (exitAt = NoT)
+  /\ (child = "run") = (status = "none")
+  /\ child = "run" => Running
+  \* once the child has exited every step is urgent: the clock stands still until Close (and its repetition) has returned
+  /\ child # "run" => now = exitAt
+  \* the child exits as soon as an exit is due (and then the clock stands still)
+  /\ \A c \in Causes : due[c] # NoT => now <= due[c]
+  /\ due["eof"] = (IF pc # "idle" /\ Running /\ EofEff(cls) # "never" THEN Delay(EofEff(cls)) ELSE NoT)
+  /\ due["term"] # NoT => termAt # NoT /\ cls.term # "ignore" /\ due["term"] = termAt + Delay(cls.term)
+  /\ (child = "run" /\ termAt # NoT /\ cls.term # "ignore") => due["term"] # NoT
+  /\ due["kill"] # NoT => killAt # NoT /\ due["kill"] = killAt
+  \* the wait status tells which exit it was, and the exit happened when it was due
+  /\ (Running /\ child # "run") => \/ status = "exit0" /\ due["eof"] # NoT /\ now = due["eof"]
+                                   \/ status = (IF cls.term = "default" THEN "sigterm" ELSE "exit7") /\ due["term"] # NoT /\ now = due["term"]
+                                   \/ status = "sigkill" /\ due["kill"] # NoT /\ now = due["kill"]
+\* the escalation timeline of the closer
+IndCloser ==
+  /\ now <= 2 * (TD + Slack)
+  /\ pc \in Waits => now <= deadline + Slack
+  /\ termAt # NoT => termAt >= TD /\ termAt <= TD + Slack /\ termAt <= now
+  /\ killAt # NoT => termAt # NoT /\ killAt >= termAt + TD /\ killAt <= termAt + TD + Slack /\ killAt <= now
+  /\ pc \in {"idle", "wait1", "term"} => termAt = NoT
+  /\ pc \in {"idle", "wait1", "term", "wait2", "kill"} => killAt = NoT
+  /\ pc = "wait1" => deadline = TD
+  /\ pc = "term" => now >= TD /\ now <= TD + Slack
+  /\ pc = "wait2" => termAt # NoT /\ deadline = termAt + TD
+  /\ pc = "kill" => \/ termAt = NoT /\ child = "gone" /\ now >= TD /\ now <= TD + Slack
+                    \/ termAt # NoT /\ now >= termAt + TD /\ now <= termAt + TD + Slack
+  \* SIGKILL always terminates, at once: the third wait takes no time
+  /\ pc = "wait3" => killAt # NoT /\ now = killAt /\ deadline = killAt + TD /\ (child = "run" => due["kill"] = killAt)
+  /\ pc \notin {"ret", "done"} => err = "none" /\ retAt = NoT
+  /\ pc # "done" => err2 = "none"
+  /\ Returned => /\ retAt = now /\ child = "gone"
+                 /\ err = "done" \/ err = ErrOf(status)
+  /\ pc = "done" => err2 = (CASE cls.c2 = "none" -> "none" [] cls.c2 = "rwc" -> "stdin" [] OTHER -> err)
+\* class by class: children that had exited before Close never see time pass; away from the boundary (the child exits at
+\* the instant a timer fires) the closer signals only a running child, never reports os.ErrProcessDone (D1), and the
+\* child's exit is the one of the closed form Exp
+IndClass ==
+  /\ ~Running => now = 0 /\ status = PreStatus(cls.pre) /\ err \in {"none", ErrOf(PreStatus(cls.pre))}
+  /\ ~Boundary(cls) => /\ pc \in {"term", "kill"} => child = "run"
+                       /\ err # "done"
+                       /\ child # "run" => status = Exp(cls).st /\ hist = Exp(cls).hist
+IndInv ==
+  /\ IndTypeOK /\ IndIdle /\ IndChild /\ IndCloser /\ IndClass
+  /\ TermNotEarly /\ KillAfterTerm /\ NoNeedlessTerm /\ NoNeedlessKill /\ Bounded /\ Responsive /\ ReturnsAtExit
+  /\ Reaped /\ Faithful /\ SecondCloseSame /\ PreExitedUnsignalled /\ PureClean /\ Determined
 =============================================================================
